@@ -307,7 +307,7 @@ class C15(Prop):
                    'text of framework-generated error/redirect pages is not asserted (only status, framing, app headers)',
                    'the server may always choose to close; only "announced <=> done" and "client asked for close => closed" are asserted',
                    'response.stream=True is only combined with iterator bodies (file, generator, pushed chunks), as in wsgi.py / examples')
-    budget = {'quick': (600, 4), 'thorough': (6000, 16)}
+    budget = {'quick': (1500, 4), 'thorough': (8000, 16)}
 
     def setup(self):
         driver.quiet_process()
